@@ -85,7 +85,8 @@ prop("C01", ["PepitVerif/Props/C01.lean", "PepitVerif/Props/C01Check.lean", "Pep
 
 prop("C02", ["PepitVerif/Props/C02.lean", "PepitVerif/Props/C13.lean"], only=[r"C02\.", "expr_latest", "eval_pure"],
      streams=[stream("resolve (eval of points/expressions/constraints after scripted solves)", "resolve", 150, 3000, offset=7),
-              stream("collect (the objective is the minimum of the CURRENT metrics: epigraph constraints sent at each solve)", "collect", 100, 2000, env={"PEPV_TEE": "1", "STUBS": "1"}, offset=109)],
+              stream("collect (the objective is the minimum of the CURRENT metrics: epigraph constraints sent at each solve)", "collect", 100, 2000, env={"PEPV_TEE": "1", "STUBS": "1"}, offset=109),
+              stream("flow (the value returned in primal mode, with and without a dimension-reduction stage, is the objective of the instance that is returned)", "flow", 150, 2000, script="corr_c14.py", offset=211)],
      direct=[oracle("c02_instance", 32, 300)],
      assumptions=["eigendecomposition/QR accuracy and feasibility up to solver tolerance are floating-point facts: monitored numerically, not proved"])
 
